@@ -41,6 +41,7 @@ struct Cycle {
   int code;
   bool pair;          // separate reader and writer threads
   int read_mode;      // 0 reproc_read loop, 1 reproc_drain with a verifying sink, 2 reproc_poll + reproc_read
+  bool closed_stdin = false;  // the child closes its stdin at once: the writer thread runs into the closed-pipe error while the reader thread goes on reading
 };
 
 struct ThreadPlan {
@@ -218,6 +219,105 @@ void run_cycle(int tid, int ci, const Cycle &cy, ThreadResult &res)
   res.cycles_done++;
 }
 
+// Reader and writer on one child whose stdin is already closed: every write fails with the closed-pipe error
+// (and keeps failing), which is the writer's business alone - the reader thread still receives every byte the
+// child writes to stdout afterwards, and the wait returns this child's status.
+void run_closed_stdin_cycle(int tid, int ci, const Cycle &cy, ThreadResult &res)
+{
+  std::string dir = fw::case_dir() + "/t" + std::to_string(tid) + "c" + std::to_string(ci);
+  hz::Puppet pup(dir);
+  if (!pup.error().empty()) {
+    res.fail("harness", "puppet: " + pup.error());
+    return;
+  }
+  reproc_options opt;
+  memset(&opt, 0, sizeof(opt));
+  opt.redirect.err.type = REPROC_REDIRECT_DISCARD;
+  opt.stop = { { REPROC_STOP_WAIT, 10000 }, { REPROC_STOP_KILL, 5000 }, { REPROC_STOP_NOOP, 0 } };
+  const char *argv[] = { pup.exe().c_str(), "t", nullptr };
+  reproc_t *p = reproc_new();
+  vsmt_enter_start();
+  int r = reproc_start(p, argv, opt);
+  vsmt_leave_start();
+  std::string who = "thread " + std::to_string(tid) + " cycle " + std::to_string(ci) + " (child closed its stdin): ";
+  if (r <= 0) {
+    res.fail("start-failed", who + "reproc_start returned " + std::to_string(r));
+    reproc_destroy(p);
+    return;
+  }
+  pup_ack ack;
+  if (!pup.wait_ready(20000, reproc_pid(p)) || !pup.cmd(PUP_CLOSE, 0, 0, &ack)) {
+    res.fail("no-hello", who + "the child did not come up: " + pup.error());
+    reproc_kill(p);
+    reproc_wait(p, 5000);
+    reproc_destroy(p);
+    return;
+  }
+  std::atomic<uint64_t> got{ 0 };
+  std::atomic<bool> reader_running{ false };
+  std::string rproblem;
+  std::thread rt([&] {
+    reader_running = true;
+    std::vector<uint8_t> buf(4096);
+    for (;;) {
+      if (cy.read_mode == 2) {
+        reproc_event_source src = { p, REPROC_EVENT_OUT, 0 };
+        int pr = reproc_poll(&src, 1, 30000);
+        if (pr <= 0) {
+          rproblem = "poll returned " + std::to_string(pr);
+          break;
+        }
+      }
+      int rr = reproc_read(p, REPROC_STREAM_OUT, buf.data(), buf.size());
+      if (rr == REPROC_EPIPE) break;
+      if (rr <= 0) {
+        rproblem = "read returned " + std::to_string(rr);
+        break;
+      }
+      for (int i = 0; i < rr; i++)
+        if (buf[(size_t) i] != pup_pattern(1, got.load() + (uint64_t) i)) {
+          rproblem = "output byte at offset " + std::to_string(got.load() + (uint64_t) i) + " is not this child's own";
+          i = rr;
+        }
+      got += (uint64_t) rr;
+      if (!rproblem.empty()) break;
+    }
+  });
+  // the writer: writes that must fail, between rounds of output from the child
+  uint64_t total = 0;
+  std::string wproblem;
+  int rounds = 3 + cy.code % 6;
+  bool refused = false;
+  std::vector<uint8_t> wbuf(std::min<size_t>(cy.chunk, 4096), 7);
+  for (int k = 0; k < rounds && wproblem.empty(); k++) {
+    int w = reproc_write(p, wbuf.data(), wbuf.size());
+    // (a sibling being forked by another thread at the wrong moment can hold a copy of the pipe's other end until it
+    // execs: a write that is still accepted then is not the library's doing; once refused, always refused)
+    if (w == REPROC_EPIPE) refused = true;
+    else if (w < 0 || refused) wproblem = "write #" + std::to_string(k) + " to a stdin the child has closed returned " + std::to_string(w) + (refused ? " after an earlier write had been refused with the closed-pipe error" : " instead of the closed-pipe error");
+    uint64_t n = 1 + (uint64_t) ((tid * 131 + ci * 17 + k * 977) % 4000);
+    if (!pup.cmd(PUP_WRITE, 1, n, &ack) || ack.v[1] != 0) {
+      // (at most 4 KiB per round against a reader that keeps reading: the pipe always has room)
+      for (int spin = 0; spin < 2000 && ack.v[1] != 0; spin++) {
+        usleep(1000);
+        if (!pup.cmd(PUP_PUMP, 1, 0, &ack)) break;
+      }
+    }
+    total += n;
+    if (reader_running && got.load() < total) res.pair_overlapped = true;
+  }
+  pup.send(PUP_EXIT, (uint32_t) cy.code);
+  rt.join();
+  if (!wproblem.empty()) res.fail("io", who + wproblem);
+  if (!rproblem.empty()) res.fail(rproblem.find("not this child") != std::string::npos ? "cross-talk" : "io", who + rproblem);
+  if (got.load() != total && res.problem.empty()) res.fail("cross-talk", who + "the reader thread received " + std::to_string(got.load()) + " of the " + std::to_string(total) + " bytes the child wrote after the writer thread's write had failed");
+  int st = reproc_wait(p, 30000);
+  if (st != cy.code) res.fail("wrong-status", who + "the child was told to exit with " + std::to_string(cy.code) + ", wait returned " + std::to_string(st));
+  if (st == REPROC_ETIMEDOUT) reproc_kill(p);
+  reproc_destroy(p);
+  res.cycles_done++;
+}
+
 struct RunCtx {
   uint64_t got[3];
   std::string problem;
@@ -329,6 +429,14 @@ CaseResult run_case(Tape &t, long)
       tp.cycles.push_back(cy);
     }
   }
+  // (decided last on the tape: plans recorded earlier keep their meaning)
+  int n_closed = 0;
+  for (auto &tp : plan)
+    for (auto &cy : tp.cycles)
+      if (!fds_only && t.chance(1, cy.pair ? 3 : 8)) {
+        cy.closed_stdin = true;
+        n_closed++;
+      }
   vsmt_configure(seed, yield_level);
   hz::puppet_source_binary();  // initialise the cache before threads exist
   signal(SIGPIPE, SIG_IGN);
@@ -344,7 +452,10 @@ CaseResult run_case(Tape &t, long)
       if (tp.kind == 1) strerror_hammer(tp.iterations, results[(size_t) i]);
       else if (tp.kind == 2) run_loop(i, tp.iterations, results[(size_t) i]);
       else
-        for (size_t c = 0; c < tp.cycles.size() && results[(size_t) i].problem.empty(); c++) run_cycle(i, (int) c, tp.cycles[c], results[(size_t) i]);
+        for (size_t c = 0; c < tp.cycles.size() && results[(size_t) i].problem.empty(); c++) {
+          if (tp.cycles[c].closed_stdin) run_closed_stdin_cycle(i, (int) c, tp.cycles[c], results[(size_t) i]);
+          else run_cycle(i, (int) c, tp.cycles[c], results[(size_t) i]);
+        }
     });
   }
   while (g_barrier_count.load() < nthreads) sched_yield();
@@ -370,7 +481,8 @@ CaseResult run_case(Tape &t, long)
   if (n_hammers) res.cls("strerror-threads");
   if (n_pairs) res.cls("reader-writer-pair");
   if (n_runs) res.cls("run-threads");
-  res.describe = J().kv("threads", nthreads).kv("reader_writer_pairs", n_pairs).kv("strerror_threads", n_hammers).kv("run_ex_threads", n_runs).kv("yield_level", yield_level).kv("cycles_completed", cycles).kv("max_concurrent_starts", maxc).kv("fds_only", fds_only).str();
+  if (n_closed) res.cls("writer-fails-while-reader-reads");
+  res.describe = J().kv("threads", nthreads).kv("reader_writer_pairs", n_pairs).kv("strerror_threads", n_hammers).kv("run_ex_threads", n_runs).kv("cycles_with_child_stdin_closed", n_closed).kv("yield_level", yield_level).kv("cycles_completed", cycles).kv("max_concurrent_starts", maxc).kv("fds_only", fds_only).str();
   return res;
 }
 
